@@ -247,11 +247,18 @@ class Validator:
         # include position details
 
         if "__position__" in d:
-            if not path or key not in d["__position__"]:
+            if path and key in d["__position__"]:
+                pd = d["__position__"][key]
+            elif (
+                path
+                and isinstance(d.get(key), dict)
+                and "__position__" in d[key]
+            ):
+                # the error is on a child object e.g. WEB or LEGEND which stores its own position
+                pd = d[key]["__position__"]
+            else:
                 # position for the root object is stored in the root of the dict
                 pd = d["__position__"]
-            else:
-                pd = d["__position__"][key]
 
             error_dict["line"] = pd.get("line")
             error_dict["column"] = pd.get("column")
